@@ -955,14 +955,14 @@ static const yytype_int16 yyrline[] =
      904,   905,   906,   910,   911,   925,   929,  1025,  1073,  1134,
     1179,  1180,  1184,  1219,  1272,  1327,  1358,  1365,  1372,  1385,
     1396,  1407,  1418,  1429,  1440,  1451,  1462,  1477,  1493,  1505,
-    1580,  1618,  1522,  1747,  1770,  1782,  1810,  1829,  1852,  1900,
-    1907,  1914,  1913,  1960,  1959,  2010,  2018,  2026,  2034,  2042,
-    2050,  2058,  2062,  2070,  2071,  2096,  2116,  2144,  2218,  2250,
-    2268,  2279,  2322,  2338,  2358,  2368,  2367,  2376,  2390,  2391,
-    2396,  2406,  2421,  2420,  2433,  2434,  2439,  2472,  2497,  2553,
-    2560,  2566,  2572,  2582,  2586,  2594,  2606,  2620,  2627,  2634,
-    2659,  2671,  2683,  2695,  2710,  2722,  2737,  2784,  2805,  2840,
-    2875,  2909,  2940,  2963,  2973,  2983,  2993,  3003,  3023,  3043
+    1581,  1619,  1523,  1748,  1771,  1783,  1811,  1830,  1853,  1901,
+    1908,  1915,  1914,  1961,  1960,  2011,  2019,  2027,  2035,  2043,
+    2051,  2059,  2063,  2071,  2072,  2097,  2117,  2145,  2219,  2251,
+    2269,  2280,  2323,  2339,  2359,  2369,  2368,  2377,  2391,  2392,
+    2397,  2407,  2422,  2421,  2434,  2435,  2440,  2473,  2498,  2554,
+    2561,  2567,  2573,  2583,  2587,  2595,  2607,  2621,  2628,  2635,
+    2660,  2672,  2684,  2696,  2711,  2723,  2738,  2785,  2806,  2841,
+    2876,  2910,  2941,  2964,  2974,  2984,  2994,  3004,  3024,  3044
 };
 #endif
 
@@ -3536,13 +3536,14 @@ yyreduce:
         }
 
         compiler->loop_index = -1;
+        compiler->loop_for_of_var_index = -1;
         YYERROR;
       }
-#line 3542 "libyara/grammar.c"
+#line 3543 "libyara/grammar.c"
     break;
 
   case 90: /* $@6: %empty  */
-#line 1580 "libyara/grammar.y"
+#line 1581 "libyara/grammar.y"
       {
         // var_frame is used for accessing local variables used in this loop.
         // All local variables are accessed using var_frame as a reference,
@@ -3580,11 +3581,11 @@ yyreduce:
         fail_if_error(yr_parser_emit_with_arg(
             yyscanner, OP_POP_M, var_frame + 2, NULL, NULL));
       }
-#line 3584 "libyara/grammar.c"
+#line 3585 "libyara/grammar.c"
     break;
 
   case 91: /* $@7: %empty  */
-#line 1618 "libyara/grammar.y"
+#line 1619 "libyara/grammar.y"
       {
         YR_LOOP_CONTEXT* loop_ctx = &compiler->loop[compiler->loop_index];
         YR_FIXUP* fixup;
@@ -3633,11 +3634,11 @@ yyreduce:
 
         loop_ctx->start_ref = loop_start_ref;
       }
-#line 3637 "libyara/grammar.c"
+#line 3638 "libyara/grammar.c"
     break;
 
   case 92: /* expression: "<for>" for_expression $@6 for_iteration ':' $@7 '(' boolean_expression ')'  */
-#line 1667 "libyara/grammar.y"
+#line 1668 "libyara/grammar.y"
       {
         int32_t jmp_offset;
         YR_FIXUP* fixup;
@@ -3718,11 +3719,11 @@ yyreduce:
         (yyval.expression).type = EXPRESSION_TYPE_BOOLEAN;
         (yyval.expression).required_strings.count = 0;
       }
-#line 3722 "libyara/grammar.c"
+#line 3723 "libyara/grammar.c"
     break;
 
   case 93: /* expression: for_expression "<of>" string_set  */
-#line 1748 "libyara/grammar.y"
+#line 1749 "libyara/grammar.y"
       {
         if ((yyvsp[-2].expression).type == EXPRESSION_TYPE_INTEGER && (yyvsp[-2].expression).value.integer > (yyvsp[0].integer))
         {
@@ -3745,11 +3746,11 @@ yyreduce:
 
         (yyval.expression).type = EXPRESSION_TYPE_BOOLEAN;
       }
-#line 3749 "libyara/grammar.c"
+#line 3750 "libyara/grammar.c"
     break;
 
   case 94: /* expression: for_expression "<of>" rule_set  */
-#line 1771 "libyara/grammar.y"
+#line 1772 "libyara/grammar.y"
       {
         if ((yyvsp[-2].expression).type == EXPRESSION_TYPE_INTEGER && (yyvsp[-2].expression).value.integer > (yyvsp[0].integer))
         {
@@ -3761,11 +3762,11 @@ yyreduce:
         (yyval.expression).type = EXPRESSION_TYPE_BOOLEAN;
         (yyval.expression).required_strings.count = 0;
       }
-#line 3765 "libyara/grammar.c"
+#line 3766 "libyara/grammar.c"
     break;
 
   case 95: /* expression: primary_expression '%' "<of>" string_set  */
-#line 1783 "libyara/grammar.y"
+#line 1784 "libyara/grammar.y"
       {
         check_type((yyvsp[-3].expression), EXPRESSION_TYPE_INTEGER, "%");
 
@@ -3793,11 +3794,11 @@ yyreduce:
 
         yr_parser_emit_with_arg(yyscanner, OP_OF_PERCENT, OF_STRING_SET, NULL, NULL);
       }
-#line 3797 "libyara/grammar.c"
+#line 3798 "libyara/grammar.c"
     break;
 
   case 96: /* expression: primary_expression '%' "<of>" rule_set  */
-#line 1811 "libyara/grammar.y"
+#line 1812 "libyara/grammar.y"
       {
         check_type((yyvsp[-3].expression), EXPRESSION_TYPE_INTEGER, "%");
 
@@ -3816,11 +3817,11 @@ yyreduce:
 
         yr_parser_emit_with_arg(yyscanner, OP_OF_PERCENT, OF_RULE_SET, NULL, NULL);
       }
-#line 3820 "libyara/grammar.c"
+#line 3821 "libyara/grammar.c"
     break;
 
   case 97: /* expression: for_expression "<of>" string_set "<in>" range  */
-#line 1830 "libyara/grammar.y"
+#line 1831 "libyara/grammar.y"
       {
         if ((yyvsp[-4].expression).type == EXPRESSION_TYPE_INTEGER && (yyvsp[-4].expression).value.integer > (yyvsp[-2].integer))
         {
@@ -3843,11 +3844,11 @@ yyreduce:
 
         (yyval.expression).type = EXPRESSION_TYPE_BOOLEAN;
       }
-#line 3847 "libyara/grammar.c"
+#line 3848 "libyara/grammar.c"
     break;
 
   case 98: /* expression: for_expression "<of>" string_set "<at>" primary_expression  */
-#line 1853 "libyara/grammar.y"
+#line 1854 "libyara/grammar.y"
       {
         if ((yyvsp[0].expression).type != EXPRESSION_TYPE_INTEGER)
         {
@@ -3895,32 +3896,32 @@ yyreduce:
 
         (yyval.expression).type = EXPRESSION_TYPE_BOOLEAN;
       }
-#line 3899 "libyara/grammar.c"
+#line 3900 "libyara/grammar.c"
     break;
 
   case 99: /* expression: "<not>" boolean_expression  */
-#line 1901 "libyara/grammar.y"
+#line 1902 "libyara/grammar.y"
       {
         yr_parser_emit(yyscanner, OP_NOT, NULL);
 
         (yyval.expression).type = EXPRESSION_TYPE_BOOLEAN;
         (yyval.expression).required_strings.count = 0;
       }
-#line 3910 "libyara/grammar.c"
+#line 3911 "libyara/grammar.c"
     break;
 
   case 100: /* expression: "<defined>" boolean_expression  */
-#line 1908 "libyara/grammar.y"
+#line 1909 "libyara/grammar.y"
       {
         yr_parser_emit(yyscanner, OP_DEFINED, NULL);
         (yyval.expression).type = EXPRESSION_TYPE_BOOLEAN;
         (yyval.expression).required_strings.count = 0;
       }
-#line 3920 "libyara/grammar.c"
+#line 3921 "libyara/grammar.c"
     break;
 
   case 101: /* $@8: %empty  */
-#line 1914 "libyara/grammar.y"
+#line 1915 "libyara/grammar.y"
       {
         YR_FIXUP* fixup;
         YR_ARENA_REF jmp_offset_ref;
@@ -3942,11 +3943,11 @@ yyreduce:
         fixup->next = compiler->fixup_stack_head;
         compiler->fixup_stack_head = fixup;
       }
-#line 3946 "libyara/grammar.c"
+#line 3947 "libyara/grammar.c"
     break;
 
   case 102: /* expression: boolean_expression "<and>" $@8 boolean_expression  */
-#line 1936 "libyara/grammar.y"
+#line 1937 "libyara/grammar.y"
       {
         YR_FIXUP* fixup;
 
@@ -3970,11 +3971,11 @@ yyreduce:
         (yyval.expression).type = EXPRESSION_TYPE_BOOLEAN;
         (yyval.expression).required_strings.count = (yyvsp[0].expression).required_strings.count + (yyvsp[-3].expression).required_strings.count;
       }
-#line 3974 "libyara/grammar.c"
+#line 3975 "libyara/grammar.c"
     break;
 
   case 103: /* $@9: %empty  */
-#line 1960 "libyara/grammar.y"
+#line 1961 "libyara/grammar.y"
       {
         YR_FIXUP* fixup;
         YR_ARENA_REF jmp_offset_ref;
@@ -3995,11 +3996,11 @@ yyreduce:
         fixup->next = compiler->fixup_stack_head;
         compiler->fixup_stack_head = fixup;
       }
-#line 3999 "libyara/grammar.c"
+#line 4000 "libyara/grammar.c"
     break;
 
   case 104: /* expression: boolean_expression "<or>" $@9 boolean_expression  */
-#line 1981 "libyara/grammar.y"
+#line 1982 "libyara/grammar.y"
       {
         YR_FIXUP* fixup;
 
@@ -4029,11 +4030,11 @@ yyreduce:
           (yyval.expression).required_strings.count = (yyvsp[-3].expression).required_strings.count;
         }
       }
-#line 4033 "libyara/grammar.c"
+#line 4034 "libyara/grammar.c"
     break;
 
   case 105: /* expression: primary_expression "<" primary_expression  */
-#line 2011 "libyara/grammar.y"
+#line 2012 "libyara/grammar.y"
       {
         fail_if_error(yr_parser_reduce_operation(
             yyscanner, "<", (yyvsp[-2].expression), (yyvsp[0].expression)));
@@ -4041,11 +4042,11 @@ yyreduce:
         (yyval.expression).type = EXPRESSION_TYPE_BOOLEAN;
         (yyval.expression).required_strings.count = 0;
       }
-#line 4045 "libyara/grammar.c"
+#line 4046 "libyara/grammar.c"
     break;
 
   case 106: /* expression: primary_expression ">" primary_expression  */
-#line 2019 "libyara/grammar.y"
+#line 2020 "libyara/grammar.y"
       {
         fail_if_error(yr_parser_reduce_operation(
             yyscanner, ">", (yyvsp[-2].expression), (yyvsp[0].expression)));
@@ -4053,11 +4054,11 @@ yyreduce:
         (yyval.expression).type = EXPRESSION_TYPE_BOOLEAN;
         (yyval.expression).required_strings.count = 0;
       }
-#line 4057 "libyara/grammar.c"
+#line 4058 "libyara/grammar.c"
     break;
 
   case 107: /* expression: primary_expression "<=" primary_expression  */
-#line 2027 "libyara/grammar.y"
+#line 2028 "libyara/grammar.y"
       {
         fail_if_error(yr_parser_reduce_operation(
             yyscanner, "<=", (yyvsp[-2].expression), (yyvsp[0].expression)));
@@ -4065,11 +4066,11 @@ yyreduce:
         (yyval.expression).type = EXPRESSION_TYPE_BOOLEAN;
         (yyval.expression).required_strings.count = 0;
       }
-#line 4069 "libyara/grammar.c"
+#line 4070 "libyara/grammar.c"
     break;
 
   case 108: /* expression: primary_expression ">=" primary_expression  */
-#line 2035 "libyara/grammar.y"
+#line 2036 "libyara/grammar.y"
       {
         fail_if_error(yr_parser_reduce_operation(
             yyscanner, ">=", (yyvsp[-2].expression), (yyvsp[0].expression)));
@@ -4077,11 +4078,11 @@ yyreduce:
         (yyval.expression).type = EXPRESSION_TYPE_BOOLEAN;
         (yyval.expression).required_strings.count = 0;
       }
-#line 4081 "libyara/grammar.c"
+#line 4082 "libyara/grammar.c"
     break;
 
   case 109: /* expression: primary_expression "==" primary_expression  */
-#line 2043 "libyara/grammar.y"
+#line 2044 "libyara/grammar.y"
       {
         fail_if_error(yr_parser_reduce_operation(
             yyscanner, "==", (yyvsp[-2].expression), (yyvsp[0].expression)));
@@ -4089,11 +4090,11 @@ yyreduce:
         (yyval.expression).type = EXPRESSION_TYPE_BOOLEAN;
         (yyval.expression).required_strings.count = 0;
       }
-#line 4093 "libyara/grammar.c"
+#line 4094 "libyara/grammar.c"
     break;
 
   case 110: /* expression: primary_expression "!=" primary_expression  */
-#line 2051 "libyara/grammar.y"
+#line 2052 "libyara/grammar.y"
       {
         fail_if_error(yr_parser_reduce_operation(
             yyscanner, "!=", (yyvsp[-2].expression), (yyvsp[0].expression)));
@@ -4101,33 +4102,33 @@ yyreduce:
         (yyval.expression).type = EXPRESSION_TYPE_BOOLEAN;
         (yyval.expression).required_strings.count = 0;
       }
-#line 4105 "libyara/grammar.c"
+#line 4106 "libyara/grammar.c"
     break;
 
   case 111: /* expression: primary_expression  */
-#line 2059 "libyara/grammar.y"
+#line 2060 "libyara/grammar.y"
       {
         (yyval.expression) = (yyvsp[0].expression);
       }
-#line 4113 "libyara/grammar.c"
+#line 4114 "libyara/grammar.c"
     break;
 
   case 112: /* expression: '(' expression ')'  */
-#line 2063 "libyara/grammar.y"
+#line 2064 "libyara/grammar.y"
       {
         (yyval.expression) = (yyvsp[-1].expression);
       }
-#line 4121 "libyara/grammar.c"
+#line 4122 "libyara/grammar.c"
     break;
 
   case 113: /* for_iteration: for_variables "<in>" iterator  */
-#line 2070 "libyara/grammar.y"
+#line 2071 "libyara/grammar.y"
                                   { (yyval.integer) = FOR_ITERATION_ITERATOR; }
-#line 4127 "libyara/grammar.c"
+#line 4128 "libyara/grammar.c"
     break;
 
   case 114: /* for_iteration: "<of>" string_iterator  */
-#line 2072 "libyara/grammar.y"
+#line 2073 "libyara/grammar.y"
       {
         int var_frame;
         int result = ERROR_SUCCESS;
@@ -4148,11 +4149,11 @@ yyreduce:
 
         (yyval.integer) = FOR_ITERATION_STRING_SET;
       }
-#line 4152 "libyara/grammar.c"
+#line 4153 "libyara/grammar.c"
     break;
 
   case 115: /* for_variables: "identifier"  */
-#line 2097 "libyara/grammar.y"
+#line 2098 "libyara/grammar.y"
       {
         int result = ERROR_SUCCESS;
 
@@ -4172,11 +4173,11 @@ yyreduce:
 
         assert(loop_ctx->vars_count <= YR_MAX_LOOP_VARS);
       }
-#line 4176 "libyara/grammar.c"
+#line 4177 "libyara/grammar.c"
     break;
 
   case 116: /* for_variables: for_variables ',' "identifier"  */
-#line 2117 "libyara/grammar.y"
+#line 2118 "libyara/grammar.y"
       {
         int result = ERROR_SUCCESS;
 
@@ -4201,11 +4202,11 @@ yyreduce:
 
         loop_ctx->vars[loop_ctx->vars_count++].identifier.ptr = (yyvsp[0].c_string);
       }
-#line 4205 "libyara/grammar.c"
+#line 4206 "libyara/grammar.c"
     break;
 
   case 117: /* iterator: identifier  */
-#line 2145 "libyara/grammar.y"
+#line 2146 "libyara/grammar.y"
       {
         YR_LOOP_CONTEXT* loop_ctx = &compiler->loop[compiler->loop_index];
 
@@ -4279,11 +4280,11 @@ yyreduce:
 
         fail_if_error(result);
       }
-#line 4283 "libyara/grammar.c"
+#line 4284 "libyara/grammar.c"
     break;
 
   case 118: /* iterator: set  */
-#line 2219 "libyara/grammar.y"
+#line 2220 "libyara/grammar.y"
       {
         int result = ERROR_SUCCESS;
 
@@ -4311,11 +4312,11 @@ yyreduce:
 
         fail_if_error(result);
       }
-#line 4315 "libyara/grammar.c"
+#line 4316 "libyara/grammar.c"
     break;
 
   case 119: /* set: '(' enumeration ')'  */
-#line 2251 "libyara/grammar.y"
+#line 2252 "libyara/grammar.y"
       {
         // $2.count contains the number of items in the enumeration
         fail_if_error(yr_parser_emit_push_const(yyscanner, (yyvsp[-1].enumeration).count));
@@ -4333,22 +4334,22 @@ yyreduce:
 
         (yyval.enumeration).type = (yyvsp[-1].enumeration).type;
       }
-#line 4337 "libyara/grammar.c"
+#line 4338 "libyara/grammar.c"
     break;
 
   case 120: /* set: range  */
-#line 2269 "libyara/grammar.y"
+#line 2270 "libyara/grammar.y"
       {
         fail_if_error(yr_parser_emit(
             yyscanner, OP_ITER_START_INT_RANGE, NULL));
 
         (yyval.enumeration).type = EXPRESSION_TYPE_INTEGER;
       }
-#line 4348 "libyara/grammar.c"
+#line 4349 "libyara/grammar.c"
     break;
 
   case 121: /* range: '(' primary_expression ".." primary_expression ')'  */
-#line 2280 "libyara/grammar.y"
+#line 2281 "libyara/grammar.y"
       {
         int result = ERROR_SUCCESS;
 
@@ -4387,11 +4388,11 @@ yyreduce:
 
         fail_if_error(result);
       }
-#line 4391 "libyara/grammar.c"
+#line 4392 "libyara/grammar.c"
     break;
 
   case 122: /* enumeration: primary_expression  */
-#line 2323 "libyara/grammar.y"
+#line 2324 "libyara/grammar.y"
       {
         int result = ERROR_SUCCESS;
 
@@ -4407,11 +4408,11 @@ yyreduce:
         (yyval.enumeration).type = (yyvsp[0].expression).type;
         (yyval.enumeration).count = 1;
       }
-#line 4411 "libyara/grammar.c"
+#line 4412 "libyara/grammar.c"
     break;
 
   case 123: /* enumeration: enumeration ',' primary_expression  */
-#line 2339 "libyara/grammar.y"
+#line 2340 "libyara/grammar.y"
       {
         int result = ERROR_SUCCESS;
 
@@ -4427,38 +4428,38 @@ yyreduce:
         (yyval.enumeration).type = (yyvsp[-2].enumeration).type;
         (yyval.enumeration).count = (yyvsp[-2].enumeration).count + 1;
       }
-#line 4431 "libyara/grammar.c"
+#line 4432 "libyara/grammar.c"
     break;
 
   case 124: /* string_iterator: string_set  */
-#line 2359 "libyara/grammar.y"
+#line 2360 "libyara/grammar.y"
       {
         fail_if_error(yr_parser_emit_push_const(yyscanner, (yyvsp[0].integer)));
         fail_if_error(yr_parser_emit(yyscanner, OP_ITER_START_STRING_SET,
             NULL));
       }
-#line 4441 "libyara/grammar.c"
+#line 4442 "libyara/grammar.c"
     break;
 
   case 125: /* $@10: %empty  */
-#line 2368 "libyara/grammar.y"
+#line 2369 "libyara/grammar.y"
       {
         // Push end-of-list marker
         yr_parser_emit_push_const(yyscanner, YR_UNDEFINED);
       }
-#line 4450 "libyara/grammar.c"
+#line 4451 "libyara/grammar.c"
     break;
 
   case 126: /* string_set: '(' $@10 string_enumeration ')'  */
-#line 2373 "libyara/grammar.y"
+#line 2374 "libyara/grammar.y"
       {
         (yyval.integer) = (yyvsp[-1].integer);
       }
-#line 4458 "libyara/grammar.c"
+#line 4459 "libyara/grammar.c"
     break;
 
   case 127: /* string_set: "<them>"  */
-#line 2377 "libyara/grammar.y"
+#line 2378 "libyara/grammar.y"
       {
         fail_if_error(yr_parser_emit_push_const(yyscanner, YR_UNDEFINED));
 
@@ -4468,23 +4469,23 @@ yyreduce:
 
         (yyval.integer) = count;
       }
-#line 4472 "libyara/grammar.c"
+#line 4473 "libyara/grammar.c"
     break;
 
   case 128: /* string_enumeration: string_enumeration_item  */
-#line 2390 "libyara/grammar.y"
+#line 2391 "libyara/grammar.y"
                               { (yyval.integer) = (yyvsp[0].integer); }
-#line 4478 "libyara/grammar.c"
+#line 4479 "libyara/grammar.c"
     break;
 
   case 129: /* string_enumeration: string_enumeration ',' string_enumeration_item  */
-#line 2391 "libyara/grammar.y"
+#line 2392 "libyara/grammar.y"
                                                      { (yyval.integer) = (yyvsp[-2].integer) + (yyvsp[0].integer); }
-#line 4484 "libyara/grammar.c"
+#line 4485 "libyara/grammar.c"
     break;
 
   case 130: /* string_enumeration_item: "string identifier"  */
-#line 2397 "libyara/grammar.y"
+#line 2398 "libyara/grammar.y"
       {
         int count = 0;
         int result = yr_parser_emit_pushes_for_strings(yyscanner, (yyvsp[0].c_string), &count);
@@ -4494,11 +4495,11 @@ yyreduce:
 
         (yyval.integer) = count;
       }
-#line 4498 "libyara/grammar.c"
+#line 4499 "libyara/grammar.c"
     break;
 
   case 131: /* string_enumeration_item: "string identifier with wildcard"  */
-#line 2407 "libyara/grammar.y"
+#line 2408 "libyara/grammar.y"
       {
         int count = 0;
         int result = yr_parser_emit_pushes_for_strings(yyscanner, (yyvsp[0].c_string), &count);
@@ -4508,40 +4509,40 @@ yyreduce:
 
         (yyval.integer) = count;
       }
-#line 4512 "libyara/grammar.c"
+#line 4513 "libyara/grammar.c"
     break;
 
   case 132: /* $@11: %empty  */
-#line 2421 "libyara/grammar.y"
+#line 2422 "libyara/grammar.y"
       {
         // Push end-of-list marker
         yr_parser_emit_push_const(yyscanner, YR_UNDEFINED);
       }
-#line 4521 "libyara/grammar.c"
+#line 4522 "libyara/grammar.c"
     break;
 
   case 133: /* rule_set: '(' $@11 rule_enumeration ')'  */
-#line 2426 "libyara/grammar.y"
+#line 2427 "libyara/grammar.y"
       {
         (yyval.integer) = (yyvsp[-1].integer);
       }
-#line 4529 "libyara/grammar.c"
+#line 4530 "libyara/grammar.c"
     break;
 
   case 134: /* rule_enumeration: rule_enumeration_item  */
-#line 2433 "libyara/grammar.y"
+#line 2434 "libyara/grammar.y"
                             { (yyval.integer) = (yyvsp[0].integer); }
-#line 4535 "libyara/grammar.c"
+#line 4536 "libyara/grammar.c"
     break;
 
   case 135: /* rule_enumeration: rule_enumeration ',' rule_enumeration_item  */
-#line 2434 "libyara/grammar.y"
+#line 2435 "libyara/grammar.y"
                                                  { (yyval.integer) = (yyvsp[-2].integer) + (yyvsp[0].integer); }
-#line 4541 "libyara/grammar.c"
+#line 4542 "libyara/grammar.c"
     break;
 
   case 136: /* rule_enumeration_item: "identifier"  */
-#line 2440 "libyara/grammar.y"
+#line 2441 "libyara/grammar.y"
       {
         int result = ERROR_SUCCESS;
 
@@ -4574,11 +4575,11 @@ yyreduce:
 
         (yyval.integer) = 1;
       }
-#line 4578 "libyara/grammar.c"
+#line 4579 "libyara/grammar.c"
     break;
 
   case 137: /* rule_enumeration_item: "identifier" '*'  */
-#line 2473 "libyara/grammar.y"
+#line 2474 "libyara/grammar.y"
       {
         int count = 0;
         YR_NAMESPACE* ns = (YR_NAMESPACE*) yr_arena_get_ptr(
@@ -4599,11 +4600,11 @@ yyreduce:
 
         (yyval.integer) = count;
       }
-#line 4603 "libyara/grammar.c"
+#line 4604 "libyara/grammar.c"
     break;
 
   case 138: /* for_expression: primary_expression  */
-#line 2498 "libyara/grammar.y"
+#line 2499 "libyara/grammar.y"
       {
         if ((yyvsp[0].expression).type == EXPRESSION_TYPE_INTEGER && !IS_UNDEFINED((yyvsp[0].expression).value.integer))
         {
@@ -4659,57 +4660,57 @@ yyreduce:
 
         (yyval.expression).value.integer = (yyvsp[0].expression).value.integer;
       }
-#line 4663 "libyara/grammar.c"
+#line 4664 "libyara/grammar.c"
     break;
 
   case 139: /* for_expression: for_quantifier  */
-#line 2554 "libyara/grammar.y"
+#line 2555 "libyara/grammar.y"
       {
         (yyval.expression).value.integer = (yyvsp[0].expression).value.integer;
       }
-#line 4671 "libyara/grammar.c"
+#line 4672 "libyara/grammar.c"
     break;
 
   case 140: /* for_quantifier: "<all>"  */
-#line 2561 "libyara/grammar.y"
+#line 2562 "libyara/grammar.y"
       {
         yr_parser_emit_push_const(yyscanner, YR_UNDEFINED);
         (yyval.expression).type = EXPRESSION_TYPE_QUANTIFIER;
         (yyval.expression).value.integer = FOR_EXPRESSION_ALL;
      }
-#line 4681 "libyara/grammar.c"
+#line 4682 "libyara/grammar.c"
     break;
 
   case 141: /* for_quantifier: "<any>"  */
-#line 2567 "libyara/grammar.y"
+#line 2568 "libyara/grammar.y"
       {
         yr_parser_emit_push_const(yyscanner, 1);
         (yyval.expression).type = EXPRESSION_TYPE_QUANTIFIER;
         (yyval.expression).value.integer = FOR_EXPRESSION_ANY;
       }
-#line 4691 "libyara/grammar.c"
+#line 4692 "libyara/grammar.c"
     break;
 
   case 142: /* for_quantifier: "<none>"  */
-#line 2573 "libyara/grammar.y"
+#line 2574 "libyara/grammar.y"
       {
         yr_parser_emit_push_const(yyscanner, 0);
         (yyval.expression).type = EXPRESSION_TYPE_QUANTIFIER;
         (yyval.expression).value.integer = FOR_EXPRESSION_NONE;
       }
-#line 4701 "libyara/grammar.c"
+#line 4702 "libyara/grammar.c"
     break;
 
   case 143: /* primary_expression: '(' primary_expression ')'  */
-#line 2583 "libyara/grammar.y"
+#line 2584 "libyara/grammar.y"
       {
         (yyval.expression) = (yyvsp[-1].expression);
       }
-#line 4709 "libyara/grammar.c"
+#line 4710 "libyara/grammar.c"
     break;
 
   case 144: /* primary_expression: "<filesize>"  */
-#line 2587 "libyara/grammar.y"
+#line 2588 "libyara/grammar.y"
       {
         fail_if_error(yr_parser_emit(
             yyscanner, OP_FILESIZE, NULL));
@@ -4717,11 +4718,11 @@ yyreduce:
         (yyval.expression).type = EXPRESSION_TYPE_INTEGER;
         (yyval.expression).value.integer = YR_UNDEFINED;
       }
-#line 4721 "libyara/grammar.c"
+#line 4722 "libyara/grammar.c"
     break;
 
   case 145: /* primary_expression: "<entrypoint>"  */
-#line 2595 "libyara/grammar.y"
+#line 2596 "libyara/grammar.y"
       {
         yywarning(yyscanner,
             "using deprecated \"entrypoint\" keyword. Use the \"entry_point\" "
@@ -4733,11 +4734,11 @@ yyreduce:
         (yyval.expression).type = EXPRESSION_TYPE_INTEGER;
         (yyval.expression).value.integer = YR_UNDEFINED;
       }
-#line 4737 "libyara/grammar.c"
+#line 4738 "libyara/grammar.c"
     break;
 
   case 146: /* primary_expression: "integer function" '(' primary_expression ')'  */
-#line 2607 "libyara/grammar.y"
+#line 2608 "libyara/grammar.y"
       {
         check_type((yyvsp[-1].expression), EXPRESSION_TYPE_INTEGER, "intXXXX or uintXXXX");
 
@@ -4751,33 +4752,33 @@ yyreduce:
         (yyval.expression).type = EXPRESSION_TYPE_INTEGER;
         (yyval.expression).value.integer = YR_UNDEFINED;
       }
-#line 4755 "libyara/grammar.c"
+#line 4756 "libyara/grammar.c"
     break;
 
   case 147: /* primary_expression: "integer number"  */
-#line 2621 "libyara/grammar.y"
+#line 2622 "libyara/grammar.y"
       {
         fail_if_error(yr_parser_emit_push_const(yyscanner, (yyvsp[0].integer)));
 
         (yyval.expression).type = EXPRESSION_TYPE_INTEGER;
         (yyval.expression).value.integer = (yyvsp[0].integer);
       }
-#line 4766 "libyara/grammar.c"
+#line 4767 "libyara/grammar.c"
     break;
 
   case 148: /* primary_expression: "floating point number"  */
-#line 2628 "libyara/grammar.y"
+#line 2629 "libyara/grammar.y"
       {
         fail_if_error(yr_parser_emit_with_arg_double(
             yyscanner, OP_PUSH, (yyvsp[0].double_), NULL, NULL));
 
         (yyval.expression).type = EXPRESSION_TYPE_FLOAT;
       }
-#line 4777 "libyara/grammar.c"
+#line 4778 "libyara/grammar.c"
     break;
 
   case 149: /* primary_expression: "text string"  */
-#line 2635 "libyara/grammar.y"
+#line 2636 "libyara/grammar.y"
       {
         YR_ARENA_REF ref;
 
@@ -4802,11 +4803,11 @@ yyreduce:
         (yyval.expression).type = EXPRESSION_TYPE_STRING;
         (yyval.expression).value.sized_string_ref = ref;
       }
-#line 4806 "libyara/grammar.c"
+#line 4807 "libyara/grammar.c"
     break;
 
   case 150: /* primary_expression: "string count" "<in>" range  */
-#line 2660 "libyara/grammar.y"
+#line 2661 "libyara/grammar.y"
       {
         int result = yr_parser_reduce_string_identifier(
             yyscanner, (yyvsp[-2].c_string), OP_COUNT_IN, YR_UNDEFINED);
@@ -4818,11 +4819,11 @@ yyreduce:
         (yyval.expression).type = EXPRESSION_TYPE_INTEGER;
         (yyval.expression).value.integer = YR_UNDEFINED;
       }
-#line 4822 "libyara/grammar.c"
+#line 4823 "libyara/grammar.c"
     break;
 
   case 151: /* primary_expression: "string count"  */
-#line 2672 "libyara/grammar.y"
+#line 2673 "libyara/grammar.y"
       {
         int result = yr_parser_reduce_string_identifier(
             yyscanner, (yyvsp[0].c_string), OP_COUNT, YR_UNDEFINED);
@@ -4834,11 +4835,11 @@ yyreduce:
         (yyval.expression).type = EXPRESSION_TYPE_INTEGER;
         (yyval.expression).value.integer = YR_UNDEFINED;
       }
-#line 4838 "libyara/grammar.c"
+#line 4839 "libyara/grammar.c"
     break;
 
   case 152: /* primary_expression: "string offset" '[' primary_expression ']'  */
-#line 2684 "libyara/grammar.y"
+#line 2685 "libyara/grammar.y"
       {
         int result = yr_parser_reduce_string_identifier(
             yyscanner, (yyvsp[-3].c_string), OP_OFFSET, YR_UNDEFINED);
@@ -4850,11 +4851,11 @@ yyreduce:
         (yyval.expression).type = EXPRESSION_TYPE_INTEGER;
         (yyval.expression).value.integer = YR_UNDEFINED;
       }
-#line 4854 "libyara/grammar.c"
+#line 4855 "libyara/grammar.c"
     break;
 
   case 153: /* primary_expression: "string offset"  */
-#line 2696 "libyara/grammar.y"
+#line 2697 "libyara/grammar.y"
       {
         int result = yr_parser_emit_push_const(yyscanner, 1);
 
@@ -4869,11 +4870,11 @@ yyreduce:
         (yyval.expression).type = EXPRESSION_TYPE_INTEGER;
         (yyval.expression).value.integer = YR_UNDEFINED;
       }
-#line 4873 "libyara/grammar.c"
+#line 4874 "libyara/grammar.c"
     break;
 
   case 154: /* primary_expression: "string length" '[' primary_expression ']'  */
-#line 2711 "libyara/grammar.y"
+#line 2712 "libyara/grammar.y"
       {
         int result = yr_parser_reduce_string_identifier(
             yyscanner, (yyvsp[-3].c_string), OP_LENGTH, YR_UNDEFINED);
@@ -4885,11 +4886,11 @@ yyreduce:
         (yyval.expression).type = EXPRESSION_TYPE_INTEGER;
         (yyval.expression).value.integer = YR_UNDEFINED;
       }
-#line 4889 "libyara/grammar.c"
+#line 4890 "libyara/grammar.c"
     break;
 
   case 155: /* primary_expression: "string length"  */
-#line 2723 "libyara/grammar.y"
+#line 2724 "libyara/grammar.y"
       {
         int result = yr_parser_emit_push_const(yyscanner, 1);
 
@@ -4904,11 +4905,11 @@ yyreduce:
         (yyval.expression).type = EXPRESSION_TYPE_INTEGER;
         (yyval.expression).value.integer = YR_UNDEFINED;
       }
-#line 4908 "libyara/grammar.c"
+#line 4909 "libyara/grammar.c"
     break;
 
   case 156: /* primary_expression: identifier  */
-#line 2738 "libyara/grammar.y"
+#line 2739 "libyara/grammar.y"
       {
         int result = ERROR_SUCCESS;
 
@@ -4955,11 +4956,11 @@ yyreduce:
 
         fail_if_error(result);
       }
-#line 4959 "libyara/grammar.c"
+#line 4960 "libyara/grammar.c"
     break;
 
   case 157: /* primary_expression: '-' primary_expression  */
-#line 2785 "libyara/grammar.y"
+#line 2786 "libyara/grammar.y"
       {
         int result = ERROR_SUCCESS;
 
@@ -4980,11 +4981,11 @@ yyreduce:
 
         fail_if_error(result);
       }
-#line 4984 "libyara/grammar.c"
+#line 4985 "libyara/grammar.c"
     break;
 
   case 158: /* primary_expression: primary_expression '+' primary_expression  */
-#line 2806 "libyara/grammar.y"
+#line 2807 "libyara/grammar.y"
       {
         int result = yr_parser_reduce_operation(
             yyscanner, "+", (yyvsp[-2].expression), (yyvsp[0].expression));
@@ -5019,11 +5020,11 @@ yyreduce:
 
         fail_if_error(result);
       }
-#line 5023 "libyara/grammar.c"
+#line 5024 "libyara/grammar.c"
     break;
 
   case 159: /* primary_expression: primary_expression '-' primary_expression  */
-#line 2841 "libyara/grammar.y"
+#line 2842 "libyara/grammar.y"
       {
         int result = yr_parser_reduce_operation(
             yyscanner, "-", (yyvsp[-2].expression), (yyvsp[0].expression));
@@ -5058,11 +5059,11 @@ yyreduce:
 
         fail_if_error(result);
       }
-#line 5062 "libyara/grammar.c"
+#line 5063 "libyara/grammar.c"
     break;
 
   case 160: /* primary_expression: primary_expression '*' primary_expression  */
-#line 2876 "libyara/grammar.y"
+#line 2877 "libyara/grammar.y"
       {
         int result = yr_parser_reduce_operation(
             yyscanner, "*", (yyvsp[-2].expression), (yyvsp[0].expression));
@@ -5096,11 +5097,11 @@ yyreduce:
 
         fail_if_error(result);
       }
-#line 5100 "libyara/grammar.c"
+#line 5101 "libyara/grammar.c"
     break;
 
   case 161: /* primary_expression: primary_expression '\\' primary_expression  */
-#line 2910 "libyara/grammar.y"
+#line 2911 "libyara/grammar.y"
       {
         int result = yr_parser_reduce_operation(
             yyscanner, "\\", (yyvsp[-2].expression), (yyvsp[0].expression));
@@ -5131,11 +5132,11 @@ yyreduce:
 
         fail_if_error(result);
       }
-#line 5135 "libyara/grammar.c"
+#line 5136 "libyara/grammar.c"
     break;
 
   case 162: /* primary_expression: primary_expression '%' primary_expression  */
-#line 2941 "libyara/grammar.y"
+#line 2942 "libyara/grammar.y"
       {
         check_type((yyvsp[-2].expression), EXPRESSION_TYPE_INTEGER, "%");
         check_type((yyvsp[0].expression), EXPRESSION_TYPE_INTEGER, "%");
@@ -5158,11 +5159,11 @@ yyreduce:
           fail_if_error(ERROR_DIVISION_BY_ZERO);
         }
       }
-#line 5162 "libyara/grammar.c"
+#line 5163 "libyara/grammar.c"
     break;
 
   case 163: /* primary_expression: primary_expression '^' primary_expression  */
-#line 2964 "libyara/grammar.y"
+#line 2965 "libyara/grammar.y"
       {
         check_type((yyvsp[-2].expression), EXPRESSION_TYPE_INTEGER, "^");
         check_type((yyvsp[0].expression), EXPRESSION_TYPE_INTEGER, "^");
@@ -5172,11 +5173,11 @@ yyreduce:
         (yyval.expression).type = EXPRESSION_TYPE_INTEGER;
         (yyval.expression).value.integer = OPERATION(^, (yyvsp[-2].expression).value.integer, (yyvsp[0].expression).value.integer);
       }
-#line 5176 "libyara/grammar.c"
+#line 5177 "libyara/grammar.c"
     break;
 
   case 164: /* primary_expression: primary_expression '&' primary_expression  */
-#line 2974 "libyara/grammar.y"
+#line 2975 "libyara/grammar.y"
       {
         check_type((yyvsp[-2].expression), EXPRESSION_TYPE_INTEGER, "^");
         check_type((yyvsp[0].expression), EXPRESSION_TYPE_INTEGER, "^");
@@ -5186,11 +5187,11 @@ yyreduce:
         (yyval.expression).type = EXPRESSION_TYPE_INTEGER;
         (yyval.expression).value.integer = OPERATION(&, (yyvsp[-2].expression).value.integer, (yyvsp[0].expression).value.integer);
       }
-#line 5190 "libyara/grammar.c"
+#line 5191 "libyara/grammar.c"
     break;
 
   case 165: /* primary_expression: primary_expression '|' primary_expression  */
-#line 2984 "libyara/grammar.y"
+#line 2985 "libyara/grammar.y"
       {
         check_type((yyvsp[-2].expression), EXPRESSION_TYPE_INTEGER, "|");
         check_type((yyvsp[0].expression), EXPRESSION_TYPE_INTEGER, "|");
@@ -5200,11 +5201,11 @@ yyreduce:
         (yyval.expression).type = EXPRESSION_TYPE_INTEGER;
         (yyval.expression).value.integer = OPERATION(|, (yyvsp[-2].expression).value.integer, (yyvsp[0].expression).value.integer);
       }
-#line 5204 "libyara/grammar.c"
+#line 5205 "libyara/grammar.c"
     break;
 
   case 166: /* primary_expression: '~' primary_expression  */
-#line 2994 "libyara/grammar.y"
+#line 2995 "libyara/grammar.y"
       {
         check_type((yyvsp[0].expression), EXPRESSION_TYPE_INTEGER, "~");
 
@@ -5214,11 +5215,11 @@ yyreduce:
         (yyval.expression).value.integer = ((yyvsp[0].expression).value.integer == YR_UNDEFINED) ?
             YR_UNDEFINED : ~((yyvsp[0].expression).value.integer);
       }
-#line 5218 "libyara/grammar.c"
+#line 5219 "libyara/grammar.c"
     break;
 
   case 167: /* primary_expression: primary_expression "<<" primary_expression  */
-#line 3004 "libyara/grammar.y"
+#line 3005 "libyara/grammar.y"
       {
         int result;
 
@@ -5238,11 +5239,11 @@ yyreduce:
 
         fail_if_error(result);
       }
-#line 5242 "libyara/grammar.c"
+#line 5243 "libyara/grammar.c"
     break;
 
   case 168: /* primary_expression: primary_expression ">>" primary_expression  */
-#line 3024 "libyara/grammar.y"
+#line 3025 "libyara/grammar.y"
       {
         int result;
 
@@ -5262,19 +5263,19 @@ yyreduce:
 
         fail_if_error(result);
       }
-#line 5266 "libyara/grammar.c"
+#line 5267 "libyara/grammar.c"
     break;
 
   case 169: /* primary_expression: regexp  */
-#line 3044 "libyara/grammar.y"
+#line 3045 "libyara/grammar.y"
       {
         (yyval.expression) = (yyvsp[0].expression);
       }
-#line 5274 "libyara/grammar.c"
+#line 5275 "libyara/grammar.c"
     break;
 
 
-#line 5278 "libyara/grammar.c"
+#line 5279 "libyara/grammar.c"
 
       default: break;
     }
@@ -5498,5 +5499,5 @@ yyreturnlab:
   return yyresult;
 }
 
-#line 3049 "libyara/grammar.y"
+#line 3050 "libyara/grammar.y"
 
